@@ -102,6 +102,7 @@ inductive Atom
   | noProposal           -- "did not receive proposal for this round"
   | notPrepare           -- "prepare msg type is wrong"
   | wrongRound           -- "wrong msg round"
+  | wrongMsgIdentifier   -- "wrong msg identifier" (embedded justification for another instance; fix e1612ceed)
   | prepareInvalid       -- wrap "prepareData invalid"
   | dataMismatch         -- "proposed data mistmatch"
   | notCommit            -- "commit msg type is wrong"
